@@ -1,4 +1,5 @@
 import UscxmlVerif.Model.Tables
+import UscxmlVerif.Proofs.Struct
 /-!
 # C05 — the transpilers compute the chart's structural relations correctly
 
@@ -6,7 +7,7 @@ import UscxmlVerif.Model.Tables
 bit for bit with the annotation the compiled transformer leaves in the DOM.
 -/
 namespace UscxmlVerif.Properties.C05
-open UscxmlVerif UscxmlVerif.Model.Tables
+open UscxmlVerif UscxmlVerif.Model.Tables UscxmlVerif.Proofs.Struct
 
 /-- the conflict relation is symmetric (the C generator only stores it once per pair in the sense
 that `conflicts[i][j]` and `conflicts[j][i]` are interchangeable) -/
@@ -50,5 +51,80 @@ theorem exitSet_below_domain (c : Chart) (t : Tr) (s : Nat) (h : s ∈ exitSet c
 /-- a targetless transition exits nothing -/
 theorem exitSet_targetless (c : Chart) (t : Tr) (h : t.targetless = true) : exitSet c t = [] := by
   simp [exitSet, h]
+
+/-! ## the embedded relations are the Recommendation's
+
+`Spec.W3C` is Appendix D (the oracle of C01); `Coherent` is the decidable well-formedness of the flat chart that the
+driver evaluates on every generated document; `plainTrans` singles out the transitions of real states with real
+(non-history) targets - for transitions into a history the embedded domain is computed from the pseudo-state, the
+recorded deviation `hist-domain`. -/
+
+/-- decidable form of `PlainTrans` -/
+def plainTrans (c : Chart) (t : Tr) : Bool :=
+  ((st c t.source).kind == .state || (st c t.source).kind == .parallel) && decide (t.source < c.states.size) &&
+  t.targets.all (fun g => g != 0 && decide (g < c.states.size) && !Spec.W3C.isHistoryState c g) &&
+  (!t.targetless || t.targets.isEmpty)
+
+theorem plain_of_plainTrans {c : Chart} {t : Tr} (h : plainTrans c t = true) :
+    PlainTrans c t ∧ (t.targetless = true → t.targets = []) := by
+  unfold plainTrans at h
+  simp only [Bool.and_eq_true, Bool.or_eq_true, beq_iff_eq, decide_eq_true_eq, List.all_eq_true, bne_iff_ne,
+    Bool.not_eq_eq_eq_not, Bool.not_true] at h
+  obtain ⟨⟨⟨h1, h2⟩, h3⟩, h4⟩ := h
+  refine ⟨⟨h1, h2, fun g hg => ⟨(h3 g hg).1.1, (h3 g hg).1.2, (h3 g hg).2⟩⟩, ?_⟩
+  intro hl
+  rcases h4 with h4 | h4
+  · rw [hl] at h4; cases h4
+  · exact List.isEmpty_iff.mp h4
+
+/-- ancestor table: bit `j` of `ancBools i` says that `j` is a proper ancestor of `i` in Appendix D's sense -/
+theorem ancestors_are_w3c (c : Chart) (s a : Nat) : isDescendant c s a = Spec.W3C.isDescendant c s a :=
+  (desc_eq c s a).symm
+
+/-- **transition domain** = Appendix D's `getTransitionDomain`, over raw or effective targets, for every recorded history -/
+theorem domain_is_w3c (c : Chart) (hc : Coherent c = true) (t : Tr) (ht : plainTrans c t = true)
+    (raw : Bool) (hist : List (Nat × List Nat)) :
+    transitionDomain c t = Spec.W3C.getTransitionDomain c raw hist t :=
+  (domain_eq c (coh_of_coherent hc) t (plain_of_plainTrans ht).1 raw hist).symm
+
+/-- **exit set**: in every configuration of real states, Appendix D's `computeExitSet` of a transition is the active part
+of the embedded `exitSetBools` -/
+theorem exit_set_is_w3c (c : Chart) (hc : Coherent c = true) (S : Spec.W3C.SState) (ti : Nat)
+    (ht : plainTrans c (tr c ti) = true) (hcfg : ConfigOk c S.config) (s : Nat) :
+    s ∈ Spec.W3C.exitSetOf c S ti ↔ s ∈ S.config ∧ s ∈ exitSet c (tr c ti) :=
+  exitSet_eq c (coh_of_coherent hc) S ti (plain_of_plainTrans ht).1 (plain_of_plainTrans ht).2 hcfg s
+
+/-- **conflict relation, soundness**: transitions that conflict in Appendix D's sense in some configuration are marked
+in `conflictBools` -/
+theorem conflict_table_sound (c : Chart) (hc : Coherent c = true) (S : Spec.W3C.SState) (i j : Nat)
+    (hi : plainTrans c (tr c i) = true) (hj : plainTrans c (tr c j) = true) (hcfg : ConfigOk c S.config)
+    (s : Nat) (h1 : s ∈ Spec.W3C.exitSetOf c S i) (h2 : s ∈ Spec.W3C.exitSetOf c S j) : conflicts c i j = true :=
+  conflicts_sound c (coh_of_coherent hc) S i j (plain_of_plainTrans hi).1 (plain_of_plainTrans hj).1
+    (plain_of_plainTrans hi).2 (plain_of_plainTrans hj).2 hcfg s h1 h2
+
+/-- **conflict relation, exactness across regions**: for transitions whose sources are neither equal nor nested,
+`conflictBools` says exactly that the static exit sets share a state. (Transitions with equal or nested sources are
+always marked: the transpilers' way of choosing one transition per atomic state; where that is coarser than the
+Recommendation is the recorded finding `nested-targetless`.) -/
+theorem conflict_table_exact (c : Chart) (i j : Nat)
+    (hne : sourceState c (tr c i) ≠ sourceState c (tr c j))
+    (h1 : isDescendant c (sourceState c (tr c i)) (sourceState c (tr c j)) = false)
+    (h2 : isDescendant c (sourceState c (tr c j)) (sourceState c (tr c i)) = false) :
+    conflicts c i j = true ↔ ∃ s, s ∈ exitSet c (tr c i) ∧ s ∈ exitSet c (tr c j) :=
+  conflicts_exact c i j hne h1 h2
+
+/-- the hypotheses are satisfiable: scxml{ p{a b} q } with a transition a -> q -/
+def sample : Chart :=
+  { states := #[
+      { kind := .scxml, typ := .compound, id := "", parent := none, children := [1, 4], completion := [1], trans := [], onentry := [], onexit := [] },
+      { kind := .state, typ := .compound, id := "p", parent := some 0, children := [2, 3], completion := [2], trans := [], onentry := [], onexit := [] },
+      { kind := .state, typ := .atomic, id := "a", parent := some 1, children := [], completion := [], trans := [0], onentry := [], onexit := [] },
+      { kind := .state, typ := .atomic, id := "b", parent := some 1, children := [], completion := [], trans := [], onentry := [], onexit := [] },
+      { kind := .state, typ := .atomic, id := "q", parent := some 0, children := [], completion := [], trans := [], onentry := [], onexit := [] }],
+    trans := #[{ source := 2, targets := [4], targetless := false, internal := false, event := some "e", cond := .none,
+                 hasContent := false, content := [], isHistory := false, isInitial := false }] }
+
+example : Coherent sample = true ∧ plainTrans sample (tr sample 0) = true := by decide
+example : transitionDomain sample (tr sample 0) = some 0 ∧ exitSet sample (tr sample 0) = [1, 2, 3, 4] := by decide
 
 end UscxmlVerif.Properties.C05
